@@ -782,6 +782,14 @@ class Node:
                 f"must be another child of target node ({new_parent})"
             )
 
+        # Same data must not appear twice below one parent
+        if new_parent is not self._parent:
+            for n in new_parent.children:
+                if n._data_id == self._data_id:
+                    raise UniqueConstraintError(
+                        f"Node.data already exists in parent: {new_parent}"
+                    )
+
         siblings = self._parent._children
         del siblings[_index_of(siblings, self)]  # type: ignore
         if not self._parent._children:  # store None instead of `[]`
